@@ -35,7 +35,16 @@ func c10AccessorSteps(ctx *core.RunCtx, sample any) []c10Step {
 					return 0, e
 				}
 			}
-			return core.NewSweep().FootprintOf(out[0].Interface()).Hash, nil
+			h := core.NewSweep().FootprintOf(out[0].Interface()).Hash
+			// what an accessor hands out as a value (numbers, big numbers, slices and structures of them) is the
+			// caller's: the caller overwrites it. If it was the parameters' own storage, the footprint of every copy
+			// of the parameters changes, and the next accessor results with it.
+			if c10ValueLike(out[0].Type(), 0) {
+				r := reflect.New(out[0].Type()).Elem()
+				r.Set(out[0])
+				scrambleAll(r, core.NewXoshiro(h), 0)
+			}
+			return h, nil
 		}})
 	}
 	if len(steps) < 10 {
@@ -91,6 +100,13 @@ func c10Parameters(ctx *core.RunCtx, g *core.Xoshiro) *c10World {
 	a := rl(orig).RingQ().NewPoly()
 	catalog.FillPoly(rl(orig).RingQ(), a, g)
 	w.steps = append(w.steps,
+		c10Step{"Parameters.NewScale(7)", false, func(x any) (uint64, error) {
+			// a scale made from the parameters' template is the caller's
+			sc := rl(x).NewScale(uint64(7))
+			h := core.NewSweep().FootprintOf(sc).Hash
+			scrambleAll(reflect.ValueOf(&sc), core.NewXoshiro(h), 0)
+			return h, nil
+		}},
 		c10Step{"RingQ.AtLevel views", false, func(x any) (uint64, error) {
 			// the moduli of every level view, and a transform through the lowest one
 			r := rl(x).RingQ()
@@ -117,4 +133,35 @@ func c10Parameters(ctx *core.RunCtx, g *core.Xoshiro) *c10World {
 		}},
 	)
 	return w
+}
+
+// c10ValueLike: the type carries numbers only (no ring, no parameter set, no interface, no function).
+func c10ValueLike(t reflect.Type, depth int) bool {
+	if depth > 8 {
+		return false
+	}
+	switch t.Kind() {
+	case reflect.Bool, reflect.Int, reflect.Int8, reflect.Int16, reflect.Int32, reflect.Int64, reflect.Uint, reflect.Uint8, reflect.Uint16, reflect.Uint32,
+		reflect.Uint64, reflect.Uintptr, reflect.Float32, reflect.Float64, reflect.Complex64, reflect.Complex128, reflect.String:
+		return true
+	case reflect.Ptr, reflect.Slice, reflect.Array:
+		return c10ValueLike(t.Elem(), depth+1)
+	case reflect.Map:
+		return c10ValueLike(t.Key(), depth+1) && c10ValueLike(t.Elem(), depth+1)
+	case reflect.Struct:
+		switch t.Name() {
+		case "Ring", "SubRing", "Parameters", "BasisExtender":
+			return false
+		}
+		if t.PkgPath() == "math/big" {
+			return true
+		}
+		for i := 0; i < t.NumField(); i++ {
+			if !c10ValueLike(t.Field(i).Type, depth+1) {
+				return false
+			}
+		}
+		return true
+	}
+	return false
 }
